@@ -457,6 +457,7 @@ func init() {
 			for s := 0; s < 8; s++ {
 				dj = append(dj, c14DaemonJob(s, 8, base, tier))
 			}
+			dj = append(dj, c14DaemonFaultJob(base))
 			return append(dj, c14Job("empty", base, depth), c14Job("foreign", base, depth), c14Job("stale", base, depth), c14PortsJob(base), c14ConcurrentPortsJob(base, tier),
 				c14XCheckJob("empty", base, xd), c14XCheckJob("foreign", base, xd), c14XCheckJob("stale", base, xd))
 		}})
